@@ -232,7 +232,13 @@ func TestVerifC14(t *testing.T) {
 				Deadline: runDeadline,
 				Workers:  vx.Workers(),
 				RunInstance: func(f func()) {
-					synctest.Test(t, func(*testing.T) { f() })
+					// a bubble that cannot end (goroutines left blocked) panics in synctest.Test: that
+					// is an infrastructure error of this run, never a crash of the whole check
+					if pe := pGuard("harness", func() { synctest.Test(t, func(*testing.T) { f() }) }); pe != nil {
+						mu.Lock()
+						rep.Infra(fmt.Sprintf("part B bubble: %v cfg=%s", pe, cfg))
+						mu.Unlock()
+					}
 				},
 				Drain: func(s vx.Sys, hist []string) error { return bfsDrains(t, cfg, s.(*pSys), hist) },
 			}, func() vx.Sys { return newPSys(t, cfg) }, func(hist []string, err error) {
